@@ -313,6 +313,8 @@ def run(F, res, tier):
     visitor_completeness(F, res, "traverse_expr", "Expr")
     visitor_completeness(F, res, "add_bindings", "Pattern")
     every_visited_expression_has_its_scope_recorded(F, res)
+    lowering_takes_every_child_of_a_list(F, res)
+    alternatives_bind_one_name_once(F, res)
     # ---- S2
     te = F.fn(SC + "traverse_expr")
     fs = [F.fns[p] for p in F.with_closures(te.path)]
@@ -1234,3 +1236,84 @@ def every_visited_expression_has_its_scope_recorded(F, res, rule="S22"):
     res.ob(rule, "scope-walk/records-every-expression", "ExprScopes::traverse_expr records the scope of the expression it was called with unconditionally "
            "(key and scope are its own parameters; the insert lies on every path and behind no test)", bool(ok), where=fn.loc(),
            how="unconditional insert at line %s" % ok if ok else "inserts into scope_by_expr at lines %s, none unconditional" % seen)
+
+
+def lowering_takes_every_child_of_a_list(F, res, rule="S23"):
+    """S23: a list-valued accessor of the syntax tree (AstChildren: the alternatives of a clause pattern, the arguments of a call,
+    the statements of a block) is lowered as a list. `pat.patterns().next()` lowers the first alternative of `Ok(v) | Error(v)` and
+    forgets the others: their binders do not exist - no definition to go to, no type, nothing to rename. In the functions that lower
+    bodies and items, an AstChildren iterator whose head is taken with next() is also handed on to something that consumes the rest
+    (a loop, map / extend / collect); taking only the head is accepted where the accessor is used as "the first child of that kind"
+    by the reviewed sites below."""
+    REVIEWED_HEADS = {}
+    n, bad = 0, []
+    for p_, f in sorted(F.fns.items()):
+        if not p_.startswith(("ide::def::body::BodyLowerCtx::", "ide::def::lower::")) or not f.blocks:
+            continue
+        d = FL.Defs(f)
+        for b, t in f.calls():
+            c = callee(t) or callee_def(t) or ""
+            if not c.endswith("::next") or not t["args"]:
+                continue
+            al = op_local(t["args"][0])
+            ty = f.local_ty(al) if al is not None else ""
+            if "AstChildren<" not in (ty or ""):
+                continue
+            if any("desugaring of `for` loop" in str(x) for x in (t.get("exp_names") or t.get("mac") or [])) or "for" in str(t.get("mac") or ""):
+                continue
+            n += 1
+            o = d.origin_op(t["args"][0])
+            base_l = o.get("l")
+            # other uses of the same iterator (the local behind the &mut)
+            root = base_l
+            others = []
+            for b2, t2 in f.calls():
+                if b2 == b:
+                    continue
+                for a in t2["args"]:
+                    o2 = d.origin_op(a) if "k" not in a else {}
+                    if o2.get("l") == root and root is not None:
+                        c2 = FL.short(callee(t2) or callee_def(t2) or "")
+                        if c2.rsplit("::", 1)[-1] not in ("next", "drop", "size_hint", "clone"):
+                            others.append(c2)
+            key = "%s/%s" % (FL.short(p_), ty.split("AstChildren<", 1)[1].rstrip(">").rsplit("::", 1)[-1])
+            if not others and key not in REVIEWED_HEADS:
+                bad.append("%s line %s: only the first %s is taken" % (FL.short(p_), t["ln"], key.rsplit("/", 1)[-1]))
+    res.ob(rule, "lowering/lists-as-lists", "where the lowering takes the head of a list of children with next(), the rest of the list is consumed as well",
+           not bad, where="crates/ide/src/def/body.rs", how="%d head(s) taken, each with the rest handed on" % n if not bad else "; ".join(bad))
+
+
+def alternatives_bind_one_name_once(F, res, rule="S24"):
+    """S24: the binders of `A(x) | B(x)` are one variable. The walk that lists the names a pattern binds has an arm for every kind of
+    pattern with sub-patterns (the completeness analysis of S1), and the inferencer gives equally named binders of the
+    alternatives one type: in the AlternativePattern arm of infer_pattern the binder walk is called and the variables it finds
+    (looked up in pattern_to_ty) are unified."""
+    IC = "ide::ty::infer::InferCtx::"
+    wb = "ide::def::body::Body::walk_binders"
+    if wb not in F.fns:
+        res.ob(rule, "alternatives/binders-listed", "a function lists the names a pattern binds (the alternatives of a pattern are compared through it)", False,
+               where="crates/ide/src/def/body.rs", how="Body::walk_binders does not exist")
+        return
+    visitor_completeness(F, res, "walk_binders", "Pattern", rule=rule, fn_path=wb, visits=(wb,), skips={}, what="lists the binders of", floor=5, selections=False)
+    f = F.fns.get(IC + "infer_pattern")
+    if f is None:
+        res.anchor_missing(rule, IC + "infer_pattern")
+        return
+    d = FL.Defs(f)
+    b0, t = match_on(f, d, "ide::def::module::Pattern")
+    dm = {n_: v for v, n_ in F.discr_map("ide::def::module::Pattern").items()}
+    tg, reach = regions(f, t)
+    common = set.intersection(*reach.values()) if len(reach) > 1 else set()
+    region = reach.get(tg.get(dm.get("AlternativePattern")), set()) - common
+    unit_calls = []
+    for b in sorted(region):
+        tt = f.term(b)
+        if tt["k"] == "call":
+            unit_calls.append((b, tt))
+    walks = [b for b, tt in unit_calls if (callee(tt) or "") == wb]
+    looks = [b for b, tt in unit_calls if FL.short(callee(tt) or callee_def(tt) or "") == "ArenaMap::get" and
+             "pattern_to_ty" in str(d.origin_op(tt["args"][0]).get("proj"))]
+    unis = [b for b, tt in unit_calls if (callee(tt) or "").endswith(("::unify_var", "::try_unify_var"))]
+    res.ob(rule, "alternatives/one-type-per-name", "the AlternativePattern arm of infer_pattern lists the binders of every alternative, looks their variables up and "
+           "unifies those of one name", bool(walks) and bool(looks) and bool(unis), where=f.loc(),
+           how="binder walks %d, look-ups in pattern_to_ty %d, unifications %d in the arm" % (len(walks), len(looks), len(unis)))
